@@ -6,11 +6,11 @@ HERE = os.path.dirname(os.path.dirname(os.path.abspath(__file__)))
 CLAIMED = {
  "C01": ("5/C01", "Seeded simulation of fault-free deliveries: every frame a real encoder produced is delivered unaltered (chunking, delay, duplication, late polls allowed) to other real contexts with different address, configuration and history, and to every snooping node; the decoder's result must be the encoded type and the payload sub-slice ending right before the PEC, or the unsuccessful-completion error with the encoded code.",
           "seeded simulation of fault-free multi-node delivery, decode round-trip oracle"),
- "C02": ("5/C02", "Seeded wire-fault injection (bit flips, <=8-bit bursts, garbling, truncation, stuck-line extension, misrouting) on in-flight frames of every message type reaching contexts in every state; oracles: accept implies reference CRC-8 ok, burst never accepted, bad PEC leaves response buffer and EID untouched and does not advance the reference model that all later answers are compared with.",
+ "C02": ("5/C02", "Seeded wire-fault injection (bit flips, <=8-bit bursts, garbling, truncation, stuck-line extension, misrouting) on in-flight frames of every message type reaching contexts in every state; oracles: accept implies reference CRC-8 ok, burst never accepted, bad PEC leaves response buffer and EID untouched, and every later output equals that of a twin context given the same call history minus the bad-PEC deliveries.",
           "seeded wire-fault injection on a simulated SMBus segment with PEC/no-effect oracles and a reference model"),
- "C04": ("5/C04", "Seeded simulation of receiver-side framing: frames from several senders queue back-to-back in a slave FIFO, arrive in seeded chunks and are re-split with get_length; header bytes, byte count, reported length, probe-on-every-prefix and stream re-splitting must agree, and bodies beyond the one-byte count must be refused.",
+ "C04": ("5/C04", "Seeded simulation of receiver-side framing: frames from several senders queue back-to-back in a slave FIFO, arrive in seeded chunks and are re-split with get_length; header bytes, byte count, reported length, probe-on-every-prefix and stream re-splitting must agree (also for every response process_packet generates), and bodies beyond the one-byte count must be refused.",
           "seeded simulation of chunked arrival / FIFO coalescing with framing and conservation oracles"),
- "C07": ("5/C07", "Response encoders are called by node applications after seeded histories (assignments through the bus, accessor writes, restarts); the encoded layout is compared with the DSP0236 reference layout and the reference model's current response-half EID.",
+ "C07": ("5/C07", "Response encoders are called by node applications after seeded histories (assignments through the bus, accessor writes, restarts); the encoded layout is compared with the DSP0236 reference layout and the EID the context has stored; the same marshalling checks run on every response process_packet generates, including answers to forged requests.",
           "seeded history simulation with a reference EID model and reference response layouts"),
  "C09": ("5/C09", "Bus snooping: every frame on the wire (intact, corrupted, truncated, extended, forged by a foreign node with valid PEC and out-of-range header fields) is decoded by every node; verdict, type, payload range and error truthfulness are compared with an independent reference decoder and across contexts.",
           "seeded simulation with foreign-node forging and wire faults, differential against a reference decoder on every node"),
@@ -22,7 +22,7 @@ CLAIMED = {
           "seeded schedule/fault simulation of request-response conversations with wire and history correlation oracles"),
  "C13": ("5/C13", "An executable reference model of the two EID cells is driven by the same seeded history (assignments with Set/Force, duplicates, reordering, corrupted and rejected frames, responses, vendor traffic, decode-only calls, accessor writes, restarts) and compared after every event via both accessors and via Get/Set Endpoint ID answers.",
           "seeded history simulation checked step by step against an executable reference model"),
- "C14": ("5/C14", "Several requesters walk one responder's vendor ID sets concurrently by following returned selectors, with retries, under drop/duplicate/reorder/burst faults; every answer and every completed walk (each set once, in order, terminating) is checked over the history.",
+ "C14": ("5/C14", "Several requesters walk one responder's vendor ID sets concurrently by following returned selectors, with retries, under drop/duplicate/reorder/burst faults; every answer and every completed walk (each set once, in order, terminating) is checked over the history, in-domain queries must be answered, and once faults stop every walk that was not abandoned must terminate (bounded liveness).",
           "seeded simulation of concurrent selector-following conversations with per-answer and per-walk history oracles"),
  "C15": ("5/C15", "Identity queries (message types, UUID, version) are interleaved with all other traffic, UUID updates and restarts; answers are compared with the reference model's configured identity at every point of every history.",
           "seeded history simulation against a reference identity model"),
@@ -52,7 +52,7 @@ for pid, (ref, text, tech) in CLAIMED.items():
         "engine": "simbus",
         "level_claimed": {
             "category": "exploration",
-            "text": text + " Seeded search over schedules, fault sequences and workloads (quick: 2-3*10^5 runs, thorough: 60x more); a clean batch is evidence, not proof.",
+            "text": text + " Seeded search over schedules, fault sequences and workloads (quick: 2-3*10^5 runs incl. ~1 in 256 soak runs of 4000 steps, thorough: 60x more); a clean batch is evidence, not proof.",
             "design_ref": f"DESIGN.md section {ref}",
         },
         "level_note": "Trusted base: the stub bus/driver model, the reference code in sim/src/refmodel.rs (bitwise CRC-8, reference decoder, layouts) written from the property text and DSP0236/DSP0237, rustc release build with overflow-checks. Sampling only: inputs/schedules the profile never draws are not covered (probe counts in the evidence show what was reached).",
@@ -77,7 +77,7 @@ manifest = {
     }],
     "checks": checks,
     "not_applicable": [{"property_id": k, "reason": v} for k, v in NA.items()],
-    "notes": "Genuine defects found on the pinned tree were repaired in /repo with nine 'fix:' commits (listed as fixed: in /verif/known_findings.txt); one defect (C01, Get Endpoint ID response length table, pinned by an existing test) is a known finding. Self-tests: ./check selftest determinism | replays | mutants | seeded.",
+    "notes": "Genuine defects found on the pinned tree were repaired in /repo with nine 'fix:' commits (listed as fixed: in /verif/known_findings.txt); one defect (C01, Get Endpoint ID response length table, pinned by an existing test) is a known finding. Self-tests: ./check selftest determinism | replays | mutants | seeded (46 own edits; 68 breaking + 24 benign changes written by independent sub-agents, see DESIGN.md section 12).",
 }
 json.dump(manifest, open(os.path.join(HERE, "MANIFEST.json"), "w"), indent=1)
 print("wrote MANIFEST.json with", len(checks), "checks,", len(NA), "not_applicable")
